@@ -335,6 +335,25 @@ func (f *fsm) drain() []string {
 type nullTrans struct {
 	addr raft.ServerAddress
 	ch   chan raft.RPC
+	mu   sync.Mutex
+	// answers scripted for one pass of the candidate loop, and the requests it made
+	script map[int]peerResp
+	sent   []sentReq
+}
+
+type peerResp struct {
+	id, pvErr, pvTerm int
+	pvGranted         bool
+	vErr              bool
+	vTerm             int
+	vGranted          bool
+}
+
+type sentReq struct {
+	kind                    byte // 'P' pre-vote, 'V' vote
+	peer                    int
+	term, lastIdx, lastTerm uint64
+	transfer                bool
 }
 
 func (t *nullTrans) Consumer() <-chan raft.RPC     { return t.ch }
@@ -345,11 +364,40 @@ func (t *nullTrans) AppendEntriesPipeline(raft.ServerID, raft.ServerAddress) (ra
 func (t *nullTrans) AppendEntries(raft.ServerID, raft.ServerAddress, *raft.AppendEntriesRequest, *raft.AppendEntriesResponse) error {
 	return errors.New("unreachable")
 }
-func (t *nullTrans) RequestVote(raft.ServerID, raft.ServerAddress, *raft.RequestVoteRequest, *raft.RequestVoteResponse) error {
-	return errors.New("unreachable")
+func (t *nullTrans) RequestVote(id raft.ServerID, _ raft.ServerAddress, req *raft.RequestVoteRequest, resp *raft.RequestVoteResponse) error {
+	p, _ := strconv.Atoi(string(id))
+	t.mu.Lock()
+	t.sent = append(t.sent, sentReq{'V', p, req.Term, req.LastLogIndex, req.LastLogTerm, req.LeadershipTransfer})
+	sc, ok := t.script[p]
+	t.mu.Unlock()
+	if !ok {
+		return errors.New("unreachable")
+	}
+	time.Sleep(time.Duration(p) * time.Millisecond) // answers arrive in ascending order of peer id
+	if sc.vErr {
+		return errors.New("unreachable")
+	}
+	resp.Term, resp.Granted = uint64(sc.vTerm), sc.vGranted
+	return nil
 }
-func (t *nullTrans) RequestPreVote(raft.ServerID, raft.ServerAddress, *raft.RequestPreVoteRequest, *raft.RequestPreVoteResponse) error {
-	return errors.New("unreachable")
+func (t *nullTrans) RequestPreVote(id raft.ServerID, _ raft.ServerAddress, req *raft.RequestPreVoteRequest, resp *raft.RequestPreVoteResponse) error {
+	p, _ := strconv.Atoi(string(id))
+	t.mu.Lock()
+	t.sent = append(t.sent, sentReq{'P', p, req.Term, req.LastLogIndex, req.LastLogTerm, false})
+	sc, ok := t.script[p]
+	t.mu.Unlock()
+	if !ok {
+		return errors.New("unreachable")
+	}
+	time.Sleep(time.Duration(p) * time.Millisecond)
+	switch sc.pvErr {
+	case 1:
+		return errors.New("unreachable")
+	case 2:
+		return errors.New("unexpected command") // a peer of an older release: no pre-vote RPC
+	}
+	resp.Term, resp.Granted = uint64(sc.pvTerm), sc.pvGranted
+	return nil
 }
 func (t *nullTrans) InstallSnapshot(raft.ServerID, raft.ServerAddress, *raft.InstallSnapshotRequest, *raft.InstallSnapshotResponse, io.Reader) error {
 	return errors.New("unreachable")
